@@ -442,6 +442,18 @@ def d_arr2(E, fv, st, node, prog):
     return SArrVal("i8", [z3.IntVal(0)] * len(names), {"v": t})
 
 
+def d_arrb1(E, fv, st, node, prog):
+    """arrb1(lambda t: e): the 1-D boolean array value with elements e"""
+    lam = node.args[0]
+    n_ = lam.args.args[0].arg
+    c = z3.Int("arr!%s" % n_)
+    s = st.fork()
+    s.assumes = st.assumes
+    s.env[n_] = SInt(c)
+    body = fv.to_bool(fv.ev(lam.body, s, False))
+    return SArrVal("b1", [z3.IntVal(0)], {"v": z3.Lambda([c], body)})
+
+
 def d_xlog(E, fv, st, node, prog):
     (v,) = _args(fv, st, node, False, 1)
     f = fv.to_float(v)
@@ -527,6 +539,7 @@ BUILTINS = {
     "ravel_of": d_ravel_of,
     "arr2": d_arr2,
     "arr1": d_arr2,
+    "arrb1": d_arrb1,
     "exp": _uf1("exp", EXP),
     "lgamma": _uf1("lgamma", LGAMMA),
 }
@@ -742,7 +755,129 @@ def random_choice(E, fv, st, node, prog):
     return SInt(r)
 
 
+def np_where(E, fv, st, node, prog):
+    """np.where(mask) for a 1-D boolean mask: (w,) with w the strictly increasing positions of True"""
+    (m,) = _args(fv, st, node, prog, 1)
+    USED.add("np.where(mask)[0] on a 1-D bool array: the strictly increasing list of exactly the True positions (length = BCOUNT)")
+    if not isinstance(m, SArr) or not is_bool_dtype(st.heap[m.loc].dtype) or fv.arr_ndim(st, m) != 1:
+        _err("np.where supported on 1-D boolean arrays only")
+    n = fv.arr_shape(st, m)[0]
+    mt0 = fv.arr_term(st, m)
+    mt = fv.fresh("mask", z3.ArraySort(I, B))  # named so that it may occur in patterns
+    st.assume(mt == mt0)
+    sd = E.db.specs.get("BCOUNT")
+    if sd is None:
+        _err("spec BCOUNT missing")
+    cnt = E.spec_app(fv, st, sd, [m, SInt(0), SInt(n)]).e
+    w = fv.fresh("where", z3.ArraySort(I, I))
+    fv.counter += 1
+    rank = z3.Function("where_rank!%d" % fv.counter, I, I)
+    a, b, p = fv.fresh_int("a"), fv.fresh_int("b"), fv.fresh_int("p")
+    st.assume(z3.And(cnt >= 0, cnt <= n))
+    st.assume(z3.ForAll([a], z3.Implies(z3.And(a >= 0, a < cnt), z3.And(z3.Select(w, a) >= 0, z3.Select(w, a) < n, z3.Select(mt, z3.Select(w, a)))), patterns=[z3.Select(w, a)]))
+    st.assume(z3.ForAll([a, b], z3.Implies(z3.And(a >= 0, a < b, b < cnt), z3.Select(w, a) < z3.Select(w, b)), patterns=[z3.MultiPattern(z3.Select(w, a), z3.Select(w, b))]))
+    st.assume(z3.ForAll([p], z3.Implies(z3.And(p >= 0, p < n, z3.Select(mt, p)), z3.And(rank(p) >= 0, rank(p) < cnt, z3.Select(w, rank(p)) == p)), patterns=[z3.Select(mt, p), rank(p)]))
+    st.funcs = dict(st.funcs)
+    k = fv.call_sites.get(id(node), 0)  # ghost name keyed by the call site (source order)
+    st.funcs["where_rank%d" % k] = rank
+    arr = fv.new_loc(st, "i8", [cnt], {"v": w}, name="where")
+    return STuple([arr])
+
+
+def np_random_choice(E, fv, st, node, prog):
+    (a,) = _args(fv, st, node, prog, 1)
+    USED.add("np.random.choice(a) on a non-empty 1-D array: an element of a")
+    if not isinstance(a, SArr) or fv.arr_ndim(st, a) != 1:
+        _err("np.random.choice supported on 1-D arrays")
+    n = fv.arr_shape(st, a)[0]
+    fv.oblige("pre@random_choice", "non-empty", n >= 1, st, node)
+    k = fv.fresh_int("pick")
+    st.assume(z3.And(k >= 0, k < n))
+    st.env = dict(st.env)
+    return fv.load(st, a, [k], node, prog=False)
+
+
+def np_arange(E, fv, st, node, prog):
+    (n,) = _args(fv, st, node, prog, 1)
+    USED.add("np.arange(n): the array 0..n-1")
+    n = fv.as_int(n).e
+    fv.oblige("alloc-nonneg", fv.stmt_anchor(node), n >= 0, st, node)
+    k = z3.Int("arange!k")
+    return fv.new_loc(st, "i8", [n], {"v": z3.Lambda([k], k)}, name="arange")
+
+
+def np_random_permutation(E, fv, st, node, prog):
+    """np.random.permutation(x) for a 1-D array: a copy permuted by a ghost bijection perm<site>"""
+    (x,) = _args(fv, st, node, prog, 1)
+    USED.add("np.random.permutation(x): y[i] = x[sigma(i)] for a bijection sigma of [0,n)")
+    if not isinstance(x, SArr) or fv.arr_ndim(st, x) != 1:
+        _err("permutation of non-1-D array")
+    n = fv.arr_shape(st, x)[0]
+    fv.counter += 1
+    site = fv.call_sites.get(id(node), 0)
+    sig = z3.Function("perm%d!%d" % (site, fv.counter), I, I)
+    inv = z3.Function("perm%d_inv!%d" % (site, fv.counter), I, I)
+    st.funcs = dict(st.funcs)
+    st.funcs["perm%d" % site] = sig
+    st.funcs["perm%d_inv" % site] = inv
+    i = fv.fresh_int("i")
+    st.assume(z3.ForAll([i], z3.Implies(z3.And(i >= 0, i < n), z3.And(sig(i) >= 0, sig(i) < n, inv(sig(i)) == i)), patterns=[sig(i)]))
+    st.assume(z3.ForAll([i], z3.Implies(z3.And(i >= 0, i < n), z3.And(inv(i) >= 0, inv(i) < n, sig(inv(i)) == i)), patterns=[inv(i)]))
+    o = st.heap[x.loc]
+    t = nested_select(o.comps["v"], x.prefix)
+    y = fv.fresh("perm", z3.ArraySort(I, I))
+    st.assume(z3.ForAll([i], z3.Implies(z3.And(i >= 0, i < n), z3.Select(y, i) == z3.Select(t, sig(i))), patterns=[z3.Select(y, i)]))
+    return fv.new_loc(st, o.dtype, [n], {"v": y}, name="perm")
+
+
+def np_array(E, fv, st, node, prog):
+    """np.array of a literal (nested) list of integers"""
+    vals = _args(fv, st, node, prog)
+    kw = _kw(fv, st, node, prog)
+    v = vals[0]
+    USED.add("np.array(<list literal>): array with the listed elements")
+    if not isinstance(v, STuple):
+        _err("np.array of non-literal")
+    rows = v.items
+    dt = _dtype_arg(vals[1] if len(vals) > 1 else kw.get("dtype"), "i8")
+    if rows and isinstance(rows[0], STuple):
+        ncol = len(rows[0].items)
+        t = z3.K(I, z3.K(I, z3.IntVal(0)))
+        for i, r in enumerate(rows):
+            if len(r.items) != ncol:
+                _err("ragged array literal")
+            for j, x in enumerate(r.items):
+                t = nested_store(t, [z3.IntVal(i), z3.IntVal(j)], fv.as_int(x).e)
+        return fv.new_loc(st, dt, [z3.IntVal(len(rows)), z3.IntVal(ncol)], {"v": t}, name="lit")
+    t = z3.K(I, z3.IntVal(0))
+    for i, x in enumerate(rows):
+        t = z3.Store(t, z3.IntVal(i), fv.as_int(x).e)
+    return fv.new_loc(st, dt, [z3.IntVal(len(rows))], {"v": t}, name="lit")
+
+
+def np_max(E, fv, st, node, prog):
+    (a,) = _args(fv, st, node, prog, 1)
+    USED.add("np.max(a) on a non-empty 1-D integer array: an element of a that bounds all elements")
+    if not isinstance(a, SArr) or fv.arr_ndim(st, a) != 1:
+        _err("np.max on non-1-D array")
+    n = fv.arr_shape(st, a)[0]
+    fv.oblige("pre@np.max", "non-empty", n >= 1, st, node)
+    t = fv.arr_term(st, a)
+    m = fv.fresh_int("max")
+    k = fv.fresh_int("k")
+    w = fv.fresh_int("argmax")
+    st.assume(z3.And(w >= 0, w < n, z3.Select(t, w) == m))
+    st.assume(z3.ForAll([k], z3.Implies(z3.And(k >= 0, k < n), z3.Select(t, k) <= m), patterns=[z3.Select(t, k)]))
+    return SInt(m)
+
+
 EXTERNALS = {
+    "numpy.array": np_array,
+    "numpy.max": np_max,
+    "numpy.arange": np_arange,
+    "numpy.random.permutation": np_random_permutation,
+    "numpy.where": np_where,
+    "numpy.random.choice": np_random_choice,
     "numpy.empty": _alloc("empty"),
     "numpy.zeros": _alloc("zeros"),
     "numpy.ones": _alloc("ones"),
